@@ -152,6 +152,12 @@ def rows():
         ("--emit-ir-graphviz", "emit_ir_graphviz", ["@WD@/ir.dot"]),
         ("--clang-macro-fallback-build-dir", "clang_macro_fallback_build_dir", ["@WD@/mfb"]),
     ]:
+        regex_opt = flag.startswith(("--allowlist", "--blocklist", "--opaque", "--no-", "--must-use", "--bitfield", "--newtype", "--rustified", "--constified",
+                                     "--normal-alias", "--new-type", "--bindgen-wrapper", "--manually-drop"))
+        if regex_opt and flag not in ("--blocklist-file", "--allowlist-file"):
+            # a regular expression may contain every character the command line uses as a LIST separator elsewhere: counted
+            # repetition `{m,n}`, alternation, a space, a semicolon, an `=`
+            vals = vals + ["[A-Za-z]{1,2}", "(S|U){1,1}[ ;=]?"]
         for v in vals:
             add(f"{flag[2:]}={v}", [flag, v], [[meth, v]], "str")
         if len(vals) >= 2 and flag not in ("--ctypes-prefix", "--anon-fields-prefix", "--wasm-import-module-name", "--wrap-static-fns-suffix"):
